@@ -23,8 +23,6 @@ import (
 	"math/rand"
 	"os"
 	osexec "os/exec"
-	"path/filepath"
-	"sort"
 	"strings"
 	"sync"
 	"sync/atomic"
@@ -65,7 +63,7 @@ func wantLoc(config, loc string) string {
 	case "buffer":
 		return "worker/shared-buffer"
 	case "merge":
-		if config == "vsysmc" {
+		if config == "vsysmc" || config == "vsysmc1" {
 			return "worker/shared-buffer" // one machine: both producers share the buffer
 		}
 		return "worker/consumer-merge"
@@ -107,6 +105,13 @@ func enumerate(thorough bool) (cells []*Cell, nominal int, skipped skipCount) {
 					// different machines: an extra two-machine configuration for this location
 					cfgs = append(cfgs, "vsysmc2")
 				}
+				if config == "vsysmc" && st.loc == "buffer" {
+					// ... and one machine with a single proc: the tasks that share the
+					// machine's combine buffers run one after the other, in an order the
+					// evaluator picks at random; the failure is therefore placed at the same
+					// row of both shards (whichever task runs first meets it)
+					cfgs = append(cfgs, "vsysmc1")
+				}
 				for _, cfg := range cfgs {
 					for _, mode := range modes {
 						for _, pers := range perss {
@@ -139,7 +144,11 @@ func enumerate(thorough bool) (cells []*Cell, nominal int, skipped skipCount) {
 								case "eof":
 									s.Shard, s.Target = 1, f.n
 								}
-								s.Bit = uint(s.Shard*f.n + s.Target)
+								s.Mask = 1 << uint(s.Shard*f.n+s.Target)
+								if cfg == "vsysmc1" {
+									s.Both = true
+									s.Mask = 1<<uint(s.Target) | 1<<uint(f.n+s.Target)
+								}
 								switch {
 								case st.site == "combiner":
 									s.Layout = st.loc
@@ -165,7 +174,7 @@ func enumerate(thorough bool) (cells []*Cell, nominal int, skipped skipCount) {
 									site += "@" + locName[st.loc]
 								}
 								c.ID = fmt.Sprintf("%s/%s/%s/%s/%s/%s", cfg, f.name, site, mode, pers, pos)
-								s.Msg = "c06-user-message<" + strings.ReplaceAll(c.ID, "/", ".") + ">"
+								s.Msg = "c06-user-message[" + strings.ReplaceAll(c.ID, "/", ".") + "]"
 								cells = append(cells, c)
 							}
 						}
@@ -220,7 +229,7 @@ func runBatch(exe, dir string, cells []*Cell) (outs []outcome, rest []*Cell) {
 	go func() {
 		for ctx.Err() == nil {
 			time.Sleep(time.Second)
-			if time.Since(time.Unix(0, atomic.LoadInt64(&last))) > 2*hangAfter+30*time.Second {
+			if time.Since(time.Unix(0, atomic.LoadInt64(&last))) > hangMax+hangAfter {
 				atomic.StoreInt32(&killed, 1)
 				cancel()
 			}
@@ -356,8 +365,10 @@ func runAll(exe, dir string, cells []*Cell, workers int, seed int64) map[string]
 				for _, o := range outs {
 					res[o.cell.ID] = o
 				}
-				if len(rest) > 0 {
-					queue = append(queue, rest)
+				// the child died (crash, hang, unbounded retries): such cells come in
+				// clusters, so the cells it did not get to are run one per child
+				for _, c := range rest {
+					queue = append(queue, []*Cell{c})
 				}
 				pending--
 				mu.Unlock()
@@ -394,11 +405,17 @@ func judge(o outcome) verdict {
 		return verdict{"driver-crash", true, "the driver process died: " + o.exit}
 	}
 	b := o.obs
+	if b.Unbounded {
+		return verdict{"unbounded-retries", true, fmt.Sprintf("the failure was delivered more than %d times and Run was still retrying (maxConsecutiveLost=%d; the cell was abandoned at that point)", fireBound, maxConsecutiveLost)}
+	}
+	if b.Hang == "run" && b.Fired > 4*maxConsecutiveLost {
+		return verdict{"unbounded-retries", true, fmt.Sprintf("Run did not return within %v and the failure had been delivered %d times by then (maxConsecutiveLost=%d)", hangAfter, b.Fired, maxConsecutiveLost)}
+	}
 	switch b.Hang {
 	case "run":
-		return verdict{"hang", true, fmt.Sprintf("Run did not return within %v (normal: well under 1 s)", hangAfter)}
+		return verdict{"hang", true, fmt.Sprintf("Run did not return within %v (normal: well under 1 s) and then neither issued a task RPC nor reached the user function for %v", hangAfter, hangSilence)}
 	case "later-run":
-		return verdict{"hang-in-later-run", true, fmt.Sprintf("a healthy Func run afterwards in the same session did not return within %v", hangAfter)}
+		return verdict{"hang-in-later-run", true, fmt.Sprintf("a healthy Func run afterwards in the same session did not return within %v and showed no activity for %v", hangAfter, hangSilence)}
 	}
 	if b.ErrNil && !b.RowsOK {
 		return verdict{"wrong-rows", true, "Run returned nil but the rows are not the program's rows: " + b.RowsDiff}
@@ -442,10 +459,14 @@ func judge(o outcome) verdict {
 
 func signature(c *Cell, class string) string {
 	site := siteName[c.Spec.Site]
-	if c.Loc != "" {
+	if c.Loc != "" && c.Config != "local" { // the local executor has a single combine location
 		site += "@" + locName[c.Loc]
 	}
-	return fmt.Sprintf("C06/%s/%s/%s/%s", c.Config, site, c.Spec.Mode, class)
+	mode := c.Spec.Mode
+	if isTemp(mode) { // both ways of marking an error temporary are recognised by the same code
+		mode = "temporary"
+	}
+	return fmt.Sprintf("C06/%s/%s/%s/%s", c.Config, site, mode, class)
 }
 
 func main() {
@@ -463,7 +484,6 @@ func main() {
 	if err != nil {
 		ev.Fatal("mkdtemp: %v", err)
 	}
-	defer os.RemoveAll(dir)
 	os.Setenv("TMPDIR", dir)
 
 	cells, nominal, skipped := enumerate(r.Thorough())
@@ -477,7 +497,7 @@ func main() {
 		cells = o
 		r.NotExhaustive("-only " + *flagOnly)
 	}
-	const workers = 24
+	const workers = 16
 	res := runAll(exe, dir, cells, workers, r.Seed)
 
 	// first verdicts; every violation is re-run alone (3x for crash/hang, 2x
@@ -515,7 +535,7 @@ func main() {
 			}
 		}
 		classes := make([]string, len(jobs))
-		ev.Parallel(len(jobs), 3*workers, func(i int) {
+		ev.Parallel(len(jobs), workers, func(i int) {
 			outs, _ := runBatch(exe, dir, []*Cell{jobs[i].a.c})
 			if len(outs) == 1 {
 				classes[i] = judge(outs[0]).class
@@ -593,8 +613,11 @@ func main() {
 			}
 		}
 		if *flagDump {
-			b, _ := json.Marshal(o.obs)
-			fmt.Printf("%-70s %-28s %s %s\n", c.ID, class, b, strings.SplitN(o.stderr, "\n", 2)[0])
+			if o.obs != nil {
+				fmt.Printf("%-72s %-30s fired=%d reached=%d %v ms=%d healthy=%v err=%q diff=%q\n", c.ID, class, o.obs.Fired, o.obs.Reached, o.obs.Locs, o.obs.Ms, o.obs.HealthyOK, trim(strings.ReplaceAll(o.obs.ErrText, "\n", " "), 150), trim(o.obs.RowsDiff+o.obs.HealthyErr, 200))
+			} else {
+				fmt.Printf("%-72s %-30s %s | %s\n", c.ID, class, o.exit, strings.SplitN(o.stderr, "\n", 2)[0])
+			}
 		}
 		if v.viol && confirmed[c.ID] {
 			sig := signature(c, v.class)
@@ -641,6 +664,7 @@ func main() {
 	if slowest > int64(hangAfter/time.Millisecond)/100*50 {
 		r.Note("slowest non-hanging cell took %d ms; the hang watchdog is %v", slowest, hangAfter)
 	}
+	os.RemoveAll(dir)
 	sk := 0
 	for _, n := range skipped {
 		sk += n
@@ -669,5 +693,4 @@ func main() {
 		"violating_cells_confirmed":                 len(confirmed),
 		"violating_cells_unconfirmed":               len(redo) - len(confirmed),
 	})
-	_ = filepath.Join
 }
